@@ -87,10 +87,11 @@ Record oracle := mkOracle {
   upper_c : char -> str;                   (* char::to_uppercase *)
   lower_c : char -> str;                   (* char::to_lowercase *)
   graphemes : str -> list str;             (* unicode-segmentation, extended grapheme clusters *)
+  dparse : str -> option datetime;         (* DateTime::from_str (six input syntaxes, unix timestamps) *)
 }.
 
 Definition no_oracle_v : oracle :=
-  mkOracle (fun _ => [63%N]) (fun _ => None) (fun c => [c]) (fun c => [c]) (fun s => map (fun c => [c]) s).
+  mkOracle (fun _ => [63%N]) (fun _ => None) (fun c => [c]) (fun c => [c]) (fun s => map (fun c => [c]) s) (fun _ => None).
 
 (* ---- IEEE helpers (binary64) ---- *)
 Definition prec := 53%Z.
